@@ -252,7 +252,8 @@ def check(repo: Repo, R) -> None:
         for n in au.walk_no_nested(fi.node):
             if isinstance(n, ast.If) and isinstance(n.test, ast.Compare) and len(n.test.ops) == 1 and isinstance(n.test.ops[0], ast.In):
                 if _norm(n.test.comparators[0], v.env) == rec and pat.same(n.test.left, subj):
-                    if n.body and isinstance(n.body[-1], ast.Raise) and n.body[-1].exc is not None and rec.split(".")[-1] in _norm(n.body[-1].exc, v.env):
+                    # the recorded exception object itself is raised again (same type, same message, same cause)
+                    if n.body and isinstance(n.body[-1], ast.Raise) and n.body[-1].exc is not None and _norm(n.body[-1].exc, au.local_defs(fi.node)) == f"{rec}[{ast.unparse(subj)}]":
                         entry_check = n
         dominated = False
         if entry_check is not None:
@@ -288,6 +289,34 @@ def check(repo: Repo, R) -> None:
         why="after a failure inside an in-place rewriting pass (arrays, bundles, instance bundles) a retry either reports a "
         "spurious error or re-runs the pass on the half-rewritten module and exports it",
     )
+    # a visit releases its own entry only: emptying the whole container would release every other visit in flight
+    for v in visits:
+        for sname in v.pending_sets:
+            wipes = [c for c in au.calls_in(v.fi.node) if isinstance(c.func, ast.Attribute) and c.func.attr == "clear" and _norm(c.func.value, v.env) == sname]
+            R.check(not wipes, "C08.1-pending-released-on-every-exit", key_of(v.fi, f"{sname}::own-entry-only"), v.fi.at(wipes[0]) if wipes else v.fi.site,
+                    f"the visit releases only its own entry of `{sname}` (no `.clear()`)" if not wipes else f"`{ast.unparse(wipes[0])}` empties `{sname}`: the entries of every enclosing visit still in flight are released too",
+                    why="an enclosing generator call / module visit that is still running finds its own pending entry gone: its normal exit raises KeyError, or a real cycle is no longer detected")
+    # the bookkeeping above lives in the base class's visit: no pass replaces it
+    base = repo.cls(F_BASE, "ElabPass")
+    over = []
+    npass = 0
+    for ci in repo.classes_in("hdl21/elab/"):
+        if ci is base or base not in repo.mro(ci):
+            continue
+        npass += 1
+        for mname in ("elaborate_module_base", "elaborate_instance_base", "elaborate", "elaborate_tops"):
+            if mname in ci.methods and mname in base.methods:
+                over.append(f"{ci.name}.{mname}")
+    if npass < 6:
+        raise AnalysisError(f"anchor-vanished: only {npass} pass classes derive from ElabPass")
+    R.check(not over, "C08.3-failed-visit-recorded-and-reraised", f"{F_BASE}::ElabPass::visit-not-overridden", base.site,
+            f"{npass} pass classes; none overrides the base visit (where pending / done / failed are kept)" if not over else f"{over} replace(s) the base visit: what happens in it is outside the pending / done / failed bookkeeping",
+            why="a pass fails outside the bookkeeping: the module is not recorded as failed, earlier passes have it cached as done, and the next call skips every check")
+    from . import c02
+    from .shared import Retag
+
+    c02.live_passes(repo, Retag(R, lambda r, k: "C08.4-every-call-runs-every-pass" if k.endswith("Elaborator.elaborate") else None,
+                                "a repeated call on a design that an earlier call rejected skips the pass that rejected it and returns a package"))
     R.floor("C08.1-pending-released-on-every-exit", 2)
     R.floor("C08.2-done-only-after-body-returned", 2)
     R.floor("C08.3-failed-visit-recorded-and-reraised", 1)
